@@ -247,7 +247,12 @@ func TestC13(t *testing.T) {
 			}
 		}
 		announce(c)
-		sig, msg := checkC13(c)
+		var sig, msg string
+		if pan := guard.Watched(1<<20, func() []byte {
+			return mustJSON(vf.Failure{Property: "C13", Kind: "hang", Case: mustJSON(c), Signature: "hang", Message: "an operation on the shared packet did not return"})
+		}, func() { sig, msg = checkC13(c) }); pan != nil {
+			sig, msg = "panic", fmt.Sprintf("panic: %v", pan.Value)
+		}
 		class := typeName(typ)
 		if c.Decoded {
 			class += "/decoded"
